@@ -35,6 +35,16 @@ CLAIMS = {
         "note": "The operations that walk the dimension array (copy, set_dimension, destroy, init) are case-split on 0..2 dimensions with literal counts (CBMC's memset model mis-handles a symbolic element count and a symbolic count ran out of memory) and use 2-byte string blocks: those units are reported under 'bounded', not counted as proved; in copy and set_dimension copy_string is replaced by a stub contract that is itself proved to satisfy CONTRACT_copy_string. Contracts of the top-level operations are checked by assume/assert around the call rather than DFCC write-set instrumentation (which ran out of memory). Self-copy (dst == src) is excluded by precondition.",
         "design": "5/C13",
     },
+    "C14": {
+        "text": "file_write is enforced (DFCC) with a loop contract over its retry loop against a ghost kernel whose pwrite returns an error, zero, or any short count: on success every byte of the packet is in the file at offset+index, nothing outside the packet is written, and the lexicographic variant (remaining, retries) proves the loop terminates; file_create is proved to leave an empty file (no stale tail). raw_start/raw_append/raw_stop/raw_set are checked against contracts over a ghost file (stub contracts of the file functions carrying the same clauses): a packet lands at [offset, offset+n) and the offset advances by n, each start begins at offset 0 of the file named by the stored URI, the stored URI is the plain path for both spellings. Packet sizes and offsets are symbolic (2^40 / 2^50); induction over set/start/append*/stop cycles gives 'file == concatenation of the appended packets'.",
+        "note": "Kernel behaviour is modelled (ghost kernel); the URI unit is bounded to 24-byte strings; raw.c entry points are checked by assume/assert around the call with stub contracts for platform/props callees whose real bodies are verified in their own units. The final concatenation argument is an induction on paper.",
+        "design": "5/C14",
+    },
+    "C16": {
+        "text": "A ghost descriptor-ownership model (which descriptor the device opened, whether it is open) sits in the stubs of open/flock/ftruncate/pwrite/close and of file_create/file_write/file_close: every close or write on a descriptor the device does not own and hold open is a failed obligation. file_create closes a descriptor whose lock or truncate failed exactly once and reports failure; file_close closes once; raw_init/start/stop/append/destroy preserve the representation invariant 'is_open iff the ghost file is open and fid is that descriptor', so every life-cycle history (never started, repeated start/stop, close while running) closes exactly what it opened exactly once; a failing write makes raw_append leave the running state within the same call with one write attempt; the HAL turns any non-running answer into Device_Err (C11 units). trash has no descriptors; its entry points are checked directly.",
+        "note": "Not claimed: tiff and tiff-json (C++: tiff.cpp, side-by-side-tiff.cpp cannot be parsed by CBMC), including their unbounded stop()/write_() recursion. trash_append's frame walk and the raw life-cycle history unit are bounded stand-ins (K=4 frames; 5 calls) reported under 'bounded'.",
+        "design": "5/C16",
+    },
 }
 
 NOT_YET = "no contract units registered yet in this commit (under construction; see DESIGN.md sec. 11)"
